@@ -76,6 +76,19 @@ def run_call(ctx, want_cancel):
     quick = ctx.tier == "quick"
     if want_cancel:
         receiving(ctx)
+    else:
+        # C14 "Sends fail instead of blocking", "every API call returns": the sending half under a transport that stops
+        # cooperating after k bytes, and messages the codec refuses
+        from . import p_frames
+        p_frames.sendside(ctx, ("err", "ctxc", "ctxd"))
+        # "once Receive has reported an error it keeps reporting one": every response body of the Frames design check
+        # read through a bidi stream, two more Receives after the end
+        core.design_check(ctx, "MC_Frames", "MC_Frames.cfg")
+        scen = [p_frames.flat(r, [], False, bidi=True) for r in p_frames.gen_a(ctx)
+                if r["sc"]["side"] == "client" and not r["sc"]["raw"]]
+        tf = core.run_runner(ctx, "frames", scen, tag="sticky")
+        acc, rej = core.validate(ctx, "TraceFrames", tf, tag="sticky", sigfn=p_frames.sig(ctx.prop))
+        core.judge(ctx, rej)
     core.design_check(ctx, "MC_Call", "MC_Call_Q.cfg" if quick else "MC_Call.cfg", timeout=3600)
     scen = programs(ctx, want_cancel)
     tf = core.run_runner(ctx, "call", scen, tag="call", timeout=7200, args=["-hang", "120s", "-workers", "8"])
